@@ -29,6 +29,9 @@ CONSTANTS Channels,        \* finite set of positive integers (channel ids)
           MaxPays,         \* bound on payments started per channel (model checking only)
           FaultKinds,      \* fault alphabet enabled at merchant replies
           RevKinds,        \* wrong-revocation candidates enabled at complete_payment
+          AdvChannels,     \* channels driven by a MALICIOUS customer (adversarial prover) instead of the honest one
+          ProofSound,      \* TRUE iff the composite proofs are sound for the transcript OBSERVED on the code
+                           \*   (decided by ProofGame.tla in checks C01 / C02); FALSE reproduces defects F1 / F2
           NAdd(_, _), NSub(_, _), NLeq(_, _), NZero, MaxBal, UMax
 
 L == INSTANCE Ledger
@@ -44,9 +47,10 @@ VARIABLES cust,      \* [Channels -> customer record]         (customer.rs stage
           nonces,    \* merchant's nonce database (usage obligation of allow_payment)
           wire,      \* every honest merchant reply ever sent (replay pool)
           closed,    \* [Channels -> closing message or NoClose]
+          spent,     \* [Channels -> Seq(state index)]  ghost: the token each accepted payment consumed
           last       \* the step just taken: [act, ch, arg, out]  (export + action properties)
 
-vars == <<cust, led, c2m, m2c, vbs, pend, issued, revealed, nonces, wire, closed, last>>
+vars == <<cust, led, c2m, m2c, vbs, pend, issued, revealed, nonces, wire, closed, spent, last>>
 
 -----------------------------------------------------------------------------
 (* Terms *)
@@ -74,7 +78,7 @@ NoPend  == [has |-> FALSE, k |-> 0]
 NoVbs   == [has |-> FALSE, k |-> 0]
 Step(act, ch, arg, out) == [act |-> act, ch |-> ch, arg |-> arg, out |-> out, aux |-> NoBf]
 
-Stages == {"none", "requested", "inactive", "ready", "started", "locked", "closed"}
+Stages == {"none", "requested", "inactive", "ready", "started", "locked", "closed", "adv"}
 
 -----------------------------------------------------------------------------
 Init ==
@@ -89,6 +93,7 @@ Init ==
   /\ nonces = {}
   /\ wire = {}
   /\ closed = [ch \in Channels |-> NoClose]
+  /\ spent = [ch \in Channels |-> <<>>]
   /\ last = Step("init", 0, "", "ok")
 
 -----------------------------------------------------------------------------
@@ -125,7 +130,7 @@ Request(ch, bal) ==
   /\ led' = [led EXCEPT ![ch] = <<bal>>]
   /\ c2m' = [c2m EXCEPT ![ch] = [kind |-> "establish", k |-> 0, amt |-> NoMsg.amt, bf |-> NoBf]]
   /\ last' = Step("request", ch, bal, "ok")
-  /\ UNCHANGED <<m2c, vbs, pend, issued, revealed, nonces, wire, closed>>
+  /\ UNCHANGED <<m2c, vbs, pend, issued, revealed, nonces, wire, closed, spent>>
 
 (* The customer receives reply r (honest, faulty or replayed) at a reply point:  *)
 (* Requested::complete, Inactive::activate, Started::lock, Locked::unlock.       *)
@@ -165,7 +170,7 @@ Deliver(ch) ==
   /\ m2c[ch] # NoSig
   /\ Receive(ch, m2c[ch], "honest")
   /\ m2c' = [m2c EXCEPT ![ch] = IF last'.out = "ok" THEN NoSig ELSE m2c[ch]]
-  /\ UNCHANGED <<led, vbs, pend, issued, nonces, wire, closed>>
+  /\ UNCHANGED <<led, vbs, pend, issued, nonces, wire, closed, spent>>
 
 (* The fault alphabet of C03: what a faulty / malicious merchant can send instead.  *)
 (* e = <<type, k, bf>> expected by the customer.  The strongest faults are valid     *)
@@ -189,14 +194,14 @@ FaultReply(ch, f) ==
 Fault(ch, f) ==
   /\ Waiting(ch)
   /\ Receive(ch, FaultReply(ch, f), f)
-  /\ UNCHANGED <<led, m2c, vbs, pend, issued, nonces, wire, closed>>
+  /\ UNCHANGED <<led, m2c, vbs, pend, issued, nonces, wire, closed, spent>>
 
 (* a reply recorded earlier in any session / channel is presented again *)
 Replay(ch, r) ==
   /\ Waiting(ch)
   /\ r \in wire /\ r # m2c[ch]
   /\ Receive(ch, r, "replay")
-  /\ UNCHANGED <<led, m2c, vbs, pend, issued, nonces, wire, closed>>
+  /\ UNCHANGED <<led, m2c, vbs, pend, issued, nonces, wire, closed, spent>>
 
 (* customer::Ready::start *)
 Start(ch, a) ==
@@ -212,7 +217,7 @@ Start(ch, a) ==
           /\ last' = Step("start", ch, a, "ok")
      ELSE /\ UNCHANGED <<cust, led, c2m>>
           /\ last' = Step("start", ch, a, r.first)
-  /\ UNCHANGED <<m2c, vbs, pend, issued, revealed, nonces, wire, closed>>
+  /\ UNCHANGED <<m2c, vbs, pend, issued, revealed, nonces, wire, closed, spent>>
 
 (* customer::{Inactive,Ready,Started,Locked}::close *)
 Close(ch) ==
@@ -220,13 +225,13 @@ Close(ch) ==
   /\ closed' = [closed EXCEPT ![ch] = ClosingMsg(ch)]
   /\ cust' = [cust EXCEPT ![ch].stage = "closed"]
   /\ last' = Step("close", ch, "", "ok")
-  /\ UNCHANGED <<led, c2m, m2c, vbs, pend, issued, revealed, nonces, wire>>
+  /\ UNCHANGED <<led, c2m, m2c, vbs, pend, issued, revealed, nonces, wire, spent>>
 
 (* store + load of the customer stage (C20): refines stuttering on the abstract state *)
 Restore(ch) ==
   /\ cust[ch].stage \in {"requested", "inactive", "ready", "started", "locked"}
   /\ last' = Step("restore", ch, "", "ok")
-  /\ UNCHANGED <<cust, led, c2m, m2c, vbs, pend, issued, revealed, nonces, wire, closed>>
+  /\ UNCHANGED <<cust, led, c2m, m2c, vbs, pend, issued, revealed, nonces, wire, closed, spent>>
 
 -----------------------------------------------------------------------------
 (* Merchant actions.  The proofs of an honest customer are true statements;     *)
@@ -244,7 +249,7 @@ MInit(ch) ==
   /\ vbs' = [vbs EXCEPT ![ch] = [has |-> TRUE, k |-> 0]]
   /\ c2m' = [c2m EXCEPT ![ch] = NoMsg]
   /\ last' = Step("minit", ch, "", "ok")
-  /\ UNCHANGED <<cust, led, pend, revealed, nonces, closed>>
+  /\ UNCHANGED <<cust, led, pend, revealed, nonces, closed, spent>>
 
 (* merchant::Config::activate (only after initialize succeeded: usage obligation) *)
 MActivate(ch) ==
@@ -255,7 +260,7 @@ MActivate(ch) ==
        /\ wire' = wire \cup {r}
   /\ vbs' = [vbs EXCEPT ![ch] = NoVbs]
   /\ last' = Step("mactivate", ch, "", "ok")
-  /\ UNCHANGED <<cust, led, c2m, pend, revealed, nonces, closed>>
+  /\ UNCHANGED <<cust, led, c2m, pend, revealed, nonces, closed, spent>>
 
 (* merchant::Config::allow_payment; the nonce must be fresh (usage obligation) *)
 MAllow(ch) ==
@@ -269,6 +274,7 @@ MAllow(ch) ==
        /\ wire' = wire \cup {r}
   /\ pend' = [pend EXCEPT ![ch] = [has |-> TRUE, k |-> m.k]]
   /\ c2m' = [c2m EXCEPT ![ch] = NoMsg]
+  /\ spent' = [spent EXCEPT ![ch] = Append(@, m.k)]
   /\ last' = Step("mallow", ch, m.amt, "ok")
   /\ UNCHANGED <<cust, led, vbs, revealed, closed>>
 
@@ -295,7 +301,7 @@ MComplete(ch) ==
   /\ c2m[ch].kind = "lock"
   /\ MCompleteWith(ch, ch, c2m[ch].k, c2m[ch].bf, "honest")
   /\ c2m' = [c2m EXCEPT ![ch] = IF last'.out = "ok" THEN NoMsg ELSE c2m[ch]]
-  /\ UNCHANGED <<cust, led, vbs, revealed, nonces, closed>>
+  /\ UNCHANGED <<cust, led, vbs, revealed, nonces, closed, spent>>
 
 (* wrong revocation candidates (C05): pair of the NEW state, pair of another channel, *)
 (* right pair with a wrong blinding factor, wrong pair with the right blinding factor *)
@@ -307,7 +313,46 @@ WrongRev(ch, kind) ==
        [] kind = "otherchan" -> MCompleteWith(ch, 0, k, Bf(0, k, "rl"), kind)
        [] kind = "bothwrong" -> MCompleteWith(ch, ch, k + 1, Bf(ch, k + 1, "rl"), kind)
        [] OTHER -> FALSE
-  /\ UNCHANGED <<cust, led, c2m, vbs, revealed, nonces, closed>>
+  /\ UNCHANGED <<cust, led, c2m, vbs, revealed, nonces, closed, spent>>
+
+-----------------------------------------------------------------------------
+(* A malicious customer against the honest merchant.  The merchant's verdict on a proof is the  *)
+(* verdict of the proof game: a true statement is accepted (completeness); a false one is       *)
+(* accepted only if the proof system is unsound for the observed transcript (ProofSound = FALSE).*)
+(* These actions connect ProofGame.tla to the protocol-level invariants IssuedMatchesLedger and *)
+(* NoDoubleSpend: with ProofSound = FALSE, TLC exhibits the consequences of F1 / F2 at protocol  *)
+(* level (MC_ZkAbacus_adv_unsound.cfg must fail).                                                *)
+AdvStateMsg(ch, i, cb, mb) == <<ch, NonceOf(ch, i), LockOf(ch, i), cb, mb>>
+AdvCloseMsg(ch, i, cb, mb) == <<ch, CloseTag, LockOf(ch, i), cb, mb>>
+
+(* establish: agreed balances `bal`, hidden balances `hid` *)
+AdvInit(ch, bal, hid) ==
+  /\ ch \in AdvChannels /\ cust[ch].stage = "none"
+  /\ (hid = bal \/ ~ProofSound)
+  /\ cust' = [cust EXCEPT ![ch].stage = "adv"]
+  /\ led' = [led EXCEPT ![ch] = <<bal>>]
+  /\ issued' = issued \cup {[key |-> MerOf(ch), msg |-> AdvCloseMsg(ch, 0, hid[1], hid[2])],
+                            [key |-> MerOf(ch), msg |-> AdvStateMsg(ch, 0, hid[1], hid[2])]}
+  /\ last' = Step("advinit", ch, hid, IF hid = bal THEN "honest" ELSE "forged")
+  /\ UNCHANGED <<c2m, m2c, vbs, pend, revealed, nonces, wire, closed, spent>>
+
+(* pay with the token of state i under a claimed nonce: the real one (fresh in the database) or  *)
+(* a made-up one; the merchant issues the closing signature of the successor state               *)
+AdvPay(ch, i, fake) ==
+  /\ ch \in AdvChannels /\ cust[ch].stage = "adv"
+  /\ i = Len(led[ch]) - 1 \/ fake                                      \* the newest token, or any token again
+  /\ i \in 0..(Len(led[ch]) - 1)
+  /\ Len(led[ch]) <= MaxPays
+  /\ IF fake THEN ~ProofSound /\ NonceOf(ch, i) \in nonces           \* spent token under a made-up nonce
+             ELSE NonceOf(ch, i) \notin nonces
+  /\ nonces' = nonces \cup {IF fake THEN <<"fake", ch, Len(led[ch])>> ELSE NonceOf(ch, i)}
+  /\ led' = [led EXCEPT ![ch] = Append(@, Bal(ch, i))]                  \* amount 0: balances carried over
+  /\ issued' = issued \cup {[key |-> MerOf(ch), msg |-> AdvCloseMsg(ch, Len(led[ch]), Bal(ch, i)[1], Bal(ch, i)[2])],
+                            [key |-> MerOf(ch), msg |-> AdvStateMsg(ch, Len(led[ch]), Bal(ch, i)[1], Bal(ch, i)[2])]}
+  /\ revealed' = revealed \cup {LockOf(ch, i)}                          \* the adversary does reveal the old pair
+  /\ spent' = [spent EXCEPT ![ch] = Append(@, i)]
+  /\ last' = Step("advpay", ch, i, IF fake THEN "doublespend" ELSE "honest")
+  /\ UNCHANGED <<cust, c2m, m2c, vbs, pend, wire, closed>>
 
 -----------------------------------------------------------------------------
 Next ==
@@ -321,6 +366,8 @@ Next ==
     \/ Restore(ch)
     \/ MInit(ch) \/ MActivate(ch) \/ MAllow(ch) \/ MComplete(ch)
     \/ \E kind \in RevKinds : WrongRev(ch, kind)
+    \/ \E bal \in InitBals, hid \in InitBals : AdvInit(ch, bal, hid)
+    \/ \E i \in 0..MaxPays, fake \in BOOLEAN : AdvPay(ch, i, fake)
 
 HonestNext ==
   \E ch \in Channels :
@@ -403,13 +450,18 @@ UnrevokedClosable(ch) ==
 MerchantExposureBounded ==
   \A ch \in Channels : \A i, j \in UnrevokedClosable(ch) : i - j \in {-1, 0, 1}
 
+(* one pay token is never accepted twice (C02 at protocol level; relies on the nonce database AND *)
+(* on the pay proof binding the token to the revealed nonce)                                        *)
+NoDoubleSpend ==
+  \A ch \in Channels : \A i, j \in 1..Len(spent[ch]) : i # j => spent[ch][i] # spent[ch][j]
+
 (* Action properties *)
 (* C03: a refused reply leaves the customer state unchanged; a revocation secret is   *)
 (* released only in the step that accepts a valid closing signature on the successor  *)
 RefusedIsInert ==
   [][last'.out = "refused" => cust' = cust /\ revealed' = revealed /\ led' = led /\ pend' = pend]_vars
 ReleaseOnlyOnAccept ==
-  [][(revealed' # revealed /\ last'.act # "init") =>      \* ("init" = reset between concatenated traces)
+  [][(revealed' # revealed /\ last'.act \notin {"init", "advpay"}) =>   \* ("init" = reset between traces; a malicious customer reveals what it likes)
         \E ch \in Channels : /\ cust[ch].stage = "started" /\ cust'[ch].stage = "locked"
                              /\ last'.act = "receive" /\ last'.out = "ok"
                              /\ Verify(cust'[ch].csig, MerOf(ch), CloseMsg(ch, cust'[ch].k))
